@@ -94,6 +94,13 @@ class Recorder:
             return v
         cc_mod.CheckpointController.estimate_remaining_checkpoints = est
         cc_mod.CheckpointController.get_gens_to_evolve = gens
+        self.o_check = eo_mod.EvolutionaryOptimizer._check_exit_criteria
+        self.checks = []
+
+        def check(self_, *a):
+            me.checks.append(a[-1])          # estimated_remaining_checkpoints as passed to this check
+            return me.o_check(self_, *a)
+        eo_mod.EvolutionaryOptimizer._check_exit_criteria = check
         self.dt1, self.dt2 = eo_mod.datetime, cc_mod.datetime
         eo_mod.datetime = FakeDatetime
         cc_mod.datetime = FakeDatetime
@@ -102,6 +109,7 @@ class Recorder:
     def __exit__(self, *a):
         cc_mod.CheckpointController.estimate_remaining_checkpoints = self.o_est
         cc_mod.CheckpointController.get_gens_to_evolve = self.o_gens
+        eo_mod.EvolutionaryOptimizer._check_exit_criteria = self.o_check
         eo_mod.datetime, cc_mod.datetime = self.dt1, self.dt2
         return False
 
@@ -163,6 +171,7 @@ def run(ctx, rep):
             for ci, cfg in enumerate(cfgs):
                 rec.est.clear()
                 rec.gens.clear()
+                rec.checks.clear()
                 pre = {"age": o.generational_age, "improv": o._fitness_improvement_age,
                        "best": None if o._best_fitness is None else float_to_key(o._best_fitness),
                        "round": o.round, "evals": o.evals}
@@ -201,7 +210,7 @@ def run(ctx, rep):
                     2: ngen >= cfg["max"],
                     3: cfg["evals"] is not None and o.evals >= cfg["evals"],
                     4: cfg["time"] is not None and elapsed >= cfg["time"],
-                    5: cfg["time"] is not None and len(rec.est) > 0 and rec.est[-1][1] is not None and rec.est[-1][1] < 0.25,
+                    5: cfg["time"] is not None and len(rec.checks) > 0 and rec.checks[-1] is not None and rec.checks[-1] < 0.25,
                 }
                 if res.status not in holds or not holds[res.status]:
                     rep.violate(f"status {res.status} names a criterion that does not hold at return", "C14:status-untrue", case)
@@ -228,10 +237,6 @@ def run(ctx, rep):
                         times.append(t)
                         evs.append(ev)
                         bests.append(b)
-                    # est value observed at each time (the last estimate computed at that clock value)
-                    est_at = {}
-                    for (ms, e) in rec.est:
-                        est_at[ms] = e
                     gens_iter = list(rec.gens)
                     # min-loop rounds do not call get_gens_to_evolve
                     n_min = 0
@@ -240,7 +245,8 @@ def run(ctx, rep):
                         acc += cfg["freq"]
                         n_min += 1
                     for k in range(len(calls) + 1):
-                        e = est_at.get(times[k])
+                        ci_ = k - n_min          # index of the check that follows round k (checks start after the min phase)
+                        e = rec.checks[ci_] if 0 <= ci_ < len(rec.checks) else None
                         if e is None or cfg["time"] is None:
                             es = "none"
                         else:
